@@ -156,7 +156,7 @@ var profHostile = register(&Profile{
 	Oracles: []Oracle{{Name: "skeleton", After: trackSkeleton}, {Name: "fsck", After: oracleFsck}},
 })
 
-var hostileBranchNames = []string{"a/b", "../x", "..", ".", "../../HEAD", "../../index", "..\\x", "a\\b", "refs/heads/x", "/abs", "../../objects", "a/../b", "x/", "../main", "./main"}
+var hostileBranchNames = []string{"\nfoo", "a\nb", "x\x01", "\r", "tab\tname", "a/b", "../x", "..", ".", "../../HEAD", "../../index", "..\\x", "a\\b", "refs/heads/x", "/abs", "../../objects", "a/../b", "x/", "../main", "./main"}
 
 func (g *G) anyObjectID(kind string) string {
 	var ids []string
